@@ -320,6 +320,19 @@ def oracle(case):
         return [Violation("c13-roundtrip-raises", case, "loading the session's own cookie raised %r" % (err,))]
     if s2.data != data:
         return [Violation("c13-roundtrip", case, "restored %r, stored %r" % (s2.data, data))]
+    # the session goes on living: what is changed after a cookie was emitted is in the next cookie
+    sess.data["later-ž"] = [len(data), "x"]
+    try:
+        value2 = sess.header()[0][1].split(";")[0]
+        s4 = PoorSession(secret, compress=comp, sid=sid)
+        s4.load(fake_request("%s" % value2).cookies)
+    except Exception as err:
+        return [Violation("c13-rewrite-raises", case, "a second header() after changing the data raised %r" % (err,))]
+    if s4.data != sess.data:
+        return [Violation("c13-rewrite", case, "data changed after the first header(): the second cookie restores %r, the "
+                          "session holds %r" % (s4.data, sess.data))]
+    del sess.data["later-ž"]
+    sess.header()
     raw = sess.cookie[sid].value          # the value itself (the header may quote it)
     serialised = json.dumps(data)
     probes = []
